@@ -205,8 +205,9 @@ class Gen:
 
     def literal(self):
         r = self.r
-        pool = r.choice([[1, 2, 3], ["a", "b"], [1, "a"], [True, "x"], [None, 1], ["1", 1], ["null", "x"], [0, False]])
-        vals = r.sample(pool, ri(r, 1, len(pool)))
+        pool = r.choice([[1, 2, 3], ["a", "b"], [1, "a"], [True, "x"], [None, 1], ["1", 1], ["null", "x"], [0, False],
+                         [1, True], [True, 1], [False, 0, "0"], [0, 1, False, True], ["True", True], [None, "None"]])
+        vals = r.sample(pool, ri(r, max(1, len(pool) - 1), len(pool)))
         # typing.Literal de-duplicates by (type, value); keep the list duplicate-free
         out = []
         for v in vals:
@@ -223,9 +224,9 @@ class Gen:
                 return self.scalar()
             if y < 0.8 and self.enum_ids:
                 return ["enum", r.choice(self.enum_ids)]
-            if y < 0.88:
+            if y < 0.90:
                 return self.literal()
-            if y < 0.92:
+            if y < 0.93:
                 return ["none"]
             if cfg.any_ok and y < 0.95:
                 return ["any"]
